@@ -22,6 +22,10 @@ impl<'a> WireFormat<'a> for KX<'a> {
     where
         Self: Sized,
     {
+        if *position + 2 > data.len() {
+            return Err(crate::SimpleDnsError::InsufficientData);
+        }
+
         let preference = u16::from_be_bytes(data[*position..*position + 2].try_into()?);
         *position += 2;
         let exchanger = Name::parse(data, position)?;
